@@ -40,6 +40,9 @@ def cases(tier, rng):
                 yield {'k': 'bytes', 'alg': alg, 'n': n, 'pat': pat}
             for n in (3 * B - 1, 3 * B, 4 * B + 1, 5 * B) + ((16 * B + 3, 64 * B) if tier == 'thorough' else ()):
                 yield {'k': 'bytes', 'alg': alg, 'n': n, 'pat': pat}
+            if pat == 'rand':
+                for n in (4095, 4096, 4099, 65539):          # long inputs (thresholds of buffered / chunked processing)
+                    yield {'k': 'bytes', 'alg': alg, 'n': n, 'pat': pat}
         if tier == 'quick':
             Ls = set()
             for c in (0, spill, bs, bs + spill, 2 * bs):
